@@ -95,4 +95,14 @@ CLAIMED["C17"] = {
     "note": TB + "; cdshealpix neighbours trusted as the definition of adjacency for the space oracle",
     "technique": "Lean 4 proof (T/F) + differential correspondence + independent oracle for the space part",
 }
+CLAIMED["C20"] = {
+    "text": "Integer model of valued_cells_to_moc_with_opt and its four descents (asserts as faults), in exact agreement with the f64 code on dyadic maps for all 16 option "
+            "combinations. Theorems: the accumulation loops take the maximal prefix with cumulative value <= threshold (every cell strictly between the thresholds is selected), the "
+            "sub-cell loop is Euclidean division, the upper-boundary descent never fails and terminates for every target below the cell value (incl. 0 and exact sub-cell boundaries). "
+            "Partial: the mass bracket and 'only cells of the map' are evaluated with exact integers on the implementation's output (not proved). One defect repaired (acc not advanced "
+            "past the split lower boundary cell), one recorded as open finding (both thresholds inside one cell).",
+    "design_ref": "DESIGN.md §4 C20, §10",
+    "note": TB + "; exactness of f64 arithmetic on dyadic inputs",
+    "technique": "Lean 4 proof (loop lemmas, totality) + differential correspondence + exact-integer property check on implementation output",
+}
 NOT_YET = {}
